@@ -115,3 +115,17 @@ with desugar_body (b : dbody) : sbody :=
   end
 with desugar_branches (bs : dgfs) : gfs :=
   match bs with DNil => GNil | DCons g r => GCons (desugar g) (desugar_branches r) end.
+
+(* mix(g_1 .. g_n) (mixture.py): a static function of (logits, args_1 .. args_n)
+     mix_idx = categorical(logits=mixture_logits) @ "mixture_component"
+     v = switch(g_1 .. g_n)(mix_idx, *args) @ "component_sample"
+     return v
+   The index distribution is site distribution d (any density: the probes stand for it); the two addresses are
+   interned as 90 and 91. *)
+Definition mix_component : addr := [90%nat].
+Definition mix_sample : addr := [91%nat].
+Definition g_mix (d : nat) (bs : gfs) : gf :=
+  let n := gfs_len bs in
+  GStatic (SSite mix_component (GDist d) [EVar 0]
+          (SSite mix_sample (GSwitch bs) (EVar (S n) :: map EVar (seq 1 n))
+          (SRet (EVar (S (S n)))))).
